@@ -73,6 +73,17 @@ def enumerate_cases(tier, scope):
                     yield {'spec': tree, 'redeclare': [[path, second]], 'emissions': [['.'.join(path) + '.x', value]], 'ret': 0}
                 yield {'spec': tree, 'redeclare': [[path, second]], 'emissions': [['.'.join(path), {'x': 1}]], 'ret': 0}
                 yield {'spec': tree, 'redeclare': [[path, second]], 'emissions': [], 'ret': 0}
+    # output namespaces declared with a nested name through create_port_namespace(): the options belong to the
+    # terminal namespace, parents that did not exist take the defaults
+    for sub in shapes:
+        for vd in (None, 'has_a'):
+            inner = pm.ns({}, **dict(sub, validator=vd))
+            inner['via'] = 'create'
+            mid = pm.ns({'range': inner})
+            mid['implicit'] = True
+            tree = pm.ns({'report': mid, 'a': pm.port(required=False)})
+            for emissions in ([['report.range.x', 1]], [['report.range.x', 's']], [['report.range.a', 1]], [['report.range', {'a': 1}]], [['report.range', {'x': 's'}]], [['a', 1]], []):
+                yield {'spec': tree, 'emissions': emissions, 'ret': 0}
     # a three-level tree under spec classes with another namespace separator
     deep = pm.ns({'r': pm.ns({'s': pm.ns({'e': pm.port(required=True, valid_type='int')}, valid_type='int'), 'x': pm.ns({}, valid_type='int', required=False)}), 'a': pm.port(required=False)})
     for sep in SEPARATORS:
